@@ -462,6 +462,7 @@ impl ValueVisitor {
 //@@ end
 
 //@@ fn file=serde_amqp/src/value/de.rs impl=`impl<'de> de::Visitor<'de> for ValueVisitor` name=visit_map id=ValueVisitor::visit_map
+//@@ shape loops=whilelet
 //@@ qmark
 //@@ generics
 //@@ nowhere
